@@ -792,6 +792,17 @@ def model_specs(draw, profile=None):
         data["q"]["kv0"] = {q_: g.series("rate", years) for q_ in vpops}
         data["iw"]["w1"] = {"%s>%s" % (a, b): {"a": g.pick([0.0, 1.0, 0.5, 2.0])} for a in pops for b in vpops if g.coin(0.8)}
         g.labels.add("second-population-type")
+        if g.coin(0.5):
+            # the second type has a junction of its own with a residual outflow (its transition matrix is a separate table on the sheet)
+            spec["comps"].append({"name": "jv", "kind": "junc", "db": False, "type": "vec"})
+            for nm, fmt in (("kv2", "rate"), ("qv", "proportion")):
+                pars[nm] = {"name": nm, "fmt": fmt, "ts": None, "fn": None, "db": True, "min": None, "max": None, "tgt": False, "timed": False, "deriv": False, "type": "vec"}
+            links[("v0", "jv")] = ["kv2"]
+            links[("jv", "v0")] = ["qv"]
+            links[("jv", "v1")] = ">"
+            data["q"]["kv2"] = {q_: g.series("rate", years) for q_ in vpops}
+            data["q"]["qv"] = {q_: {"a": g.pick([0.0, 0.25, 0.6, 1.0, 1.3])} for q_ in vpops}
+            g.labels.add("second-population-type:residual-junction")
     spec["data"] = data
     spec["pops"] = pops + extra_pops
     if g.coin(0.5):
